@@ -1,8 +1,8 @@
 SPECIFICATION GSpec
 CONSTANTS
-  WireMod = 16
-  MaxGap = 4
-  HiMax = 3
+  WireMod = 65536
+  MaxGap = 16384
+  HiMax = 65535
   AdrLimit = 64
   AdrDelay = 32
   Region = "EU868"
